@@ -92,6 +92,19 @@ class Lockstep:
             self.gateway.protocol_version = case["version"]
             self.model.set_version_directly(case["version"])
         self.transport.fail_attempts = set(case.get("faults") or ())
+        if case.get("fail19"):
+            # fail the k-th write attempt of a presentation request (internal type 19)
+            wanted = set(case["fail19"])
+            seen = {"n": 0}
+
+            def predicate(_attempt: int, line: str) -> bool:
+                parsed = split_line(line)
+                if not parsed or parsed[2] != 3 or parsed[4] != spec.I_PRESENTATION:
+                    return False
+                seen["n"] += 1
+                return seen["n"] - 1 in wanted
+
+            self.transport.fail_predicate = predicate
         self.stepper = Stepper(self.gateway, self.transport)
         self.mismatches: list[Mismatch] = []
         self.step_index = -1
@@ -204,6 +217,11 @@ class Lockstep:
             parsed = split_line(w)
             if parsed and parsed[2] == 3 and parsed[4] == spec.I_ID_RESPONSE:
                 hint["id_response"] = spec_int(parsed[5])
+        for w in failed:
+            parsed = split_line(w)
+            if parsed and parsed[2] == 3 and parsed[4] == spec.I_ID_RESPONSE:
+                hint["id_response_failed"] = spec_int(parsed[5])
+        hint["registry_ids"] = set(after)
         hint["presreq_failed"] = any((split_line(w) or (0,) * 6)[4] == spec.I_PRESENTATION for w in failed)
         node0 = after.get(0)
         hint["node0_recreated"] = node0 is not None and node0 != before.get(0)
